@@ -171,8 +171,8 @@ func (s *shardStats) record(p *Prop, class string, key []byte, o *Obs) {
 // death of the process (worker-goroutine panic, fatal runtime error, kill).
 
 type slot struct {
+	seq atomic.Uint64 // first field and an atomic type: 64-bit aligned on 32-bit targets too
 	mem []byte
-	seq uint64
 }
 
 func openSlot(path string) (*slot, error) {
@@ -196,7 +196,7 @@ func (s *slot) begin(worker int, class string, key []byte) {
 		return
 	}
 	m := s.mem[worker*slotSize : (worker+1)*slotSize]
-	binary.LittleEndian.PutUint64(m[0:], atomic.AddUint64(&s.seq, 1))
+	binary.LittleEndian.PutUint64(m[0:], s.seq.Add(1))
 	if 24+len(class)+len(key) > len(m) {
 		key = key[:len(m)-24-len(class)]
 	}
